@@ -352,7 +352,7 @@ def check(tier: str, replay: Optional[str] = None) -> int:
             tlc.rmtree(wd)
     print(f"[C14] replay: {stats} witnesses={witnesses}", flush=True)
     if min(witnesses["match_not_first_candidate"], witnesses["cache_hit_runs"], witnesses["no_match"]) == 0:
-        raise tlc.MachineryError(f"vacuity: {witnesses}")
+        v.vacuous(f"vacuity: {witnesses}")
     validate(suspects, v, stats, "model-replay")
     validate(sampled, v, stats, "model-replay-sample")
     # beyond the modelled bounds
